@@ -115,7 +115,7 @@ def strEnd (p : List Byte) : Nat → Nat → Except LitErr Nat
     let b := byteAt p i
     if b = 34#8 then .ok i
     else if b = 10#8 ∨ b = 0#8 then .error .unclosedString
-    else if b = 92#8 then strEnd p fuel (i + 2)
+    else if b = 92#8 ∧ byteAt p (i + 1) ≠ 0#8 then strEnd p fuel (i + 2)     -- `if (*p == '\\\\' && p[1]) p++;`
     else strEnd p fuel (i + 1)
 
 def stringLiteralEnd (p : List Byte) (i : Nat) : Except LitErr Nat := strEnd p (p.length + 2) i
